@@ -499,7 +499,7 @@ func (r *e1run) decode(ui *uriInfo) {
 					du := dunit{track: ti, dts: dts, ptsOff: int64(s.PTSOffset), dur: int64(s.Duration), sync: !s.IsNonSyncSample}
 					var err error
 					switch r.cfg.Tracks[ti].Kind {
-					case "h264", "h264b", "h264k":
+					case "h264", "h264b", "h264k", "h264bk":
 						du.data, err = s.GetH264()
 					case "h265", "h265b":
 						du.data, err = s.GetH265()
